@@ -99,7 +99,7 @@ def doSort (s : St) (algo rep lcpS memS depthS : String) : Option String := do
   let (out, l) := runAlgo algo c wl depth ss l0 mem
   -- the traced skeleton: branch coverage of this sort; up to 4096 strings it also has to
   -- reproduce the result of the proved model
-  let small := n ≤ 4096
+  let small := n ≤ 4096 ∧ (pool.map List.length).sum ≤ 200000
   let tr := Trace.runT (Prod.snd : Nat × Str → Str) (!small) algo c wl depth ss l0 mem
   if small ∧ ¬ (tr.1.1.map Prod.fst = out.map Prod.fst ∧ tr.1.2 = l) then
     pure "MODEL-TRACE-MISMATCH"
